@@ -398,8 +398,22 @@ class DiscreteStridedIntervalSet(StridedInterval):
         :return:
         """
 
+    def _reflected(self, o, operation):
+        """
+        o <operation> self for an operand that is not a set itself: the operation is not commutative, so o goes first.
+        """
+        if isinstance(o, BVV):
+            o = o.value
+        if isinstance(o, numbers.Number):
+            o = StridedInterval(bits=self.bits, stride=0, lower_bound=o, upper_bound=o)
+        if not isinstance(o, StridedInterval):
+            return NotImplemented
+        if not isinstance(o, DiscreteStridedIntervalSet):
+            o = DiscreteStridedIntervalSet(bits=self.bits, si_set={o})
+        return getattr(o, operation)(self)
+
     def __rsub__(self, o):
-        return self.__sub__(o)
+        return self._reflected(o, "__sub__")
 
     @convert_operand_to_si
     @apply_on_each_si
@@ -415,7 +429,7 @@ class DiscreteStridedIntervalSet(StridedInterval):
         return self.__floordiv__(o)  # floats not welcome
 
     def __rfloordiv__(self, o):
-        return self.__floordiv__(o)
+        return self._reflected(o, "__floordiv__")
 
     def __rtruediv__(self, o):
         return self.__rfloordiv__(o)
@@ -431,7 +445,7 @@ class DiscreteStridedIntervalSet(StridedInterval):
         """
 
     def __rmod__(self, o):
-        return self.__mod__(o)
+        return self._reflected(o, "__mod__")
 
     # Evaluation
 
